@@ -13,9 +13,9 @@ TB = ("Trusted base: rustc nightly front end and MIR construction (mir_promoted 
 CLAIMED = {
     # id: (technique, what the check gives, design section)
     "C01": ("must-held guard analysis (handoff under the channel lock), edge-dominance (timed receive), payload publication order + release/acquire discipline on synchronisation fields, backward data-flow (unsent derives from input), auto-trait/receiver-kind facts",
-            "Four structural clauses over the point-to-point channels: waiter-state transitions and transfer helpers only under the channel mutex; Timeout only behind a successful "
+            "Five structural clauses over the point-to-point channels: waiter-state transitions and transfer helpers only under the channel mutex; Timeout only behind a successful "
             "withdrawal; every payload write followed by a >=Release publish and every payload read preceded by a >=Acquire guard, with all ~200 sites on synchronisation fields at "
-            "the required strength; batch errors carry the caller's items; single-endpoint handles are exclusive by type. Multiset equality of sent/received values is not decided.", "§4 C01"),
+            "the required strength; batch errors carry the caller's items; single-endpoint handles are exclusive by type; the iterator given to resolve_run is bounded by the same `valid` count at all 5 sites. Multiset equality of sent/received values is not decided.", "§4 C01"),
     "C03": ("edge-dominance of value-carrying commits by the admission predicate; must-held guard analysis",
             "Admission-gate shape at the 20 commit sites whose admission predicate is a call (mpsc-bounded credit, mpmc-bounded fullness under the lock, oneshot CAS, rendezvous pairing). "
             "SPSC/SPMC index arithmetic and len()<=capacity as numbers are not decided.", "§4 C03"),
@@ -34,20 +34,20 @@ CLAIMED = {
             "Disconnect-protocol clauses on the four topic handle types and publish-never-waits. Routing by subscription history is not decided.", "§4 C08"),
     "C09": ("field-set equality at mem::forget(self) (ptr::read multiset vs drop-glue fields), type selector + Drop reachability for payload owners, must-follow for reclaimed items",
             "All 40 forget-conversions move each owning field exactly once; every payload-owning storage type drains on Drop; recovered items re-enter.", "§4 C09"),
-    "C10": ("edge-dominance of guard construction by acquisition success, ordering floors on lock-word RMWs, park/Pending protocol path rule, must-held guard analysis in Drop of lock futures, impl/field-access facts",
-            "Six clauses over HybridMutex/HybridRwLock: guards only after acquisition, release strength, release-before-wake, queue-and-recheck before sleeping (sync and async), cancel-safe unlink "
-            "and wake forwarding, ReadGuard has no DerefMut / node fields private to the wait queue / try_ variants cannot park.", "§4 C10"),
+    "C10": ("edge-dominance of guard construction by acquisition success, ordering floors on lock-word RMWs, park/Pending protocol path rule, must-held guard analysis in Drop of lock futures, impl/field-access facts, constant-mask agreement between announcers and wake gates",
+            "Seven clauses over HybridMutex/HybridRwLock: guards only after acquisition, release strength, release-before-wake, queue-and-recheck before sleeping (sync and async), cancel-safe unlink "
+            "and wake forwarding, ReadGuard has no DerefMut / node fields private to the wait queue / try_ variants cannot park, every wake-gate mask in unlock* intersects every announced sleeper mask.", "§4 C10"),
     "C11": ("guard-flow (the acquired write guard is the one moved into the Entry), Arc::get_mut success-edge dominance for compute, effect-multiset sibling comparison of blocking vs async handles",
             "Entry check-and-insert is one critical section; compute runs only with exclusive access under the write guard; 32 blocking/async method pairs perform identical cache effects. "
             "Per-key linearizability is not decided.", "§4 C11"),
-    "C12": ("edge-dominance of every value read by the not-expired edge of is_expired on the same entry (or the stale-while-revalidate branch), Expired-reason justification, call-graph reachability for peek",
-            "Every value read of a looked-up entry is behind the expiry gate; Expired removals are justified by the deadline; peek refreshes nothing (3 demonstrated known findings).", "§4 C12"),
+    "C12": ("edge-dominance of every value read by the not-expired edge of is_expired on the same entry (or the stale-while-revalidate branch), Expired-reason justification, call-graph reachability for peek, argument-to-parameter role agreement for the two expiry durations",
+            "Every value read of a looked-up entry is behind the expiry gate; Expired removals are justified by the deadline; peek refreshes nothing (3 demonstrated known findings); configured time_to_live/time_to_idle reach the parameter of the same role at all 36 call sites.", "§4 C12"),
     "C13": ("must-follow + backward data-flow (subtracted amount derives from the removed entry's cost), who-may-write the counter, insertion=>policy event, must-held guard analysis for maintenance",
             "Removal=>subtract-that-entry's-cost at all 21 map mutation sites, only map-mutating code writes current_cost, every insertion is announced to the policy, maintenance runs under the shard's maintenance lock.", "§4 C13"),
     "C15": ("MIR must-held guard analysis + dominator rules on the loader bodies",
             "Leader election is one critical section, insert -> remove marker -> complete order, and completion/waiter registration share one mutex.", "§4 C15"),
     "C16": ("edge-dominance + backward data-flow (notification value derives from the removed entry) + exactly-once path rule",
-            "Every listener notification is tied to the success edge of a removal, carries that entry's value and the remover's reason, exactly once per listed removal.", "§4 C16"),
+            "Every listener notification is tied to the success edge of a removal, carries that entry's value and the remover's reason, exactly once per listed removal; a to-be-sent list is re-created between two readings.", "§4 C16"),
     "C17": ("the C12 expiry-gate instances of iterators/snapshots + restore-is-an-insertion rows",
             "Everything iterators and snapshots yield is expiry-gated; restore accounts cost, uses the store's shard index, and must announce entries to the policy (1 demonstrated known finding).", "§4 C17"),
     "C18": ("who-may-use rule on the singleton factory field, must-held guard analysis for the cycle guard, field-read sets of eq/hash, sibling effect-sequence agreement",
